@@ -34,6 +34,7 @@ package rest
 //	       error / a string / http.ErrAbortHandler, goexit calls runtime.Goexit.  Outcomes then carry ` status=<c>`
 //	       (route handler ran, response status not 200), ` end=<kind>`, ` esc=<panic|goexit>` (it left ServeHTTP).
 //	opt router                          rest.WithRouter(router.NewRouter())
+//	opt chain=<n>                       rest.WithChain(chain.New(c1 … cn)) (trail tokens c<i>; replaces the native chain)
 //	use id=<k>               => ok      Server.Use(middleware u<k>)
 //	start                    => listen | panic:<verdict>     Server.Start() with a port that cannot be opened
 //	cfg must=1                          the server is built by rest.MustNewServer
@@ -55,6 +56,7 @@ import (
 	"github.com/golang-jwt/jwt/v4"
 	"github.com/zeromicro/go-zero/core/logx"
 	"github.com/zeromicro/go-zero/internal/verifh"
+	"github.com/zeromicro/go-zero/rest/chain"
 	"github.com/zeromicro/go-zero/rest/pathvar"
 	"github.com/zeromicro/go-zero/rest/router"
 )
@@ -139,7 +141,9 @@ func (g *c09SrvGen) section() verifh.Section {
 	var ops []string
 	// options (a later one overwrites an earlier one)
 	for i, n := 0, r.Pick(0, 0, 1, 1, 2, 3); i < n; i++ {
-		switch r.Intn(8) {
+		switch r.Intn(9) {
+		case 8:
+			ops = append(ops, "opt chain="+r.PickS("0", "1", "2"))
 		case 7:
 			ops = append(ops, "opt router")
 		case 0:
@@ -367,7 +371,9 @@ func (g *c09SrvGen) sectionAPI() verifh.Section {
 	r := g.r
 	var ops []string
 	for i, n := 0, r.Pick(0, 0, 1, 2); i < n; i++ {
-		switch r.Intn(5) {
+		switch r.Intn(6) {
+		case 5:
+			ops = append(ops, "opt chain="+r.PickS("0", "1", "2"))
 		case 4:
 			ops = append(ops, "opt router")
 		case 0:
@@ -452,10 +458,16 @@ func (g *c09SrvGen) sectionAPI() verifh.Section {
 			switch x := r.Intn(100); {
 			case x < 14:
 				secret = r.PickS("secret-aaaa", "secret-bbbb")
-				if r.Chance(1, 4) {
-					prev := r.PickS("secret-cccc", "secret-bbbb")
+				if r.Chance(1, 3) {
+					// previous secret: another one, the one another group uses as CURRENT (swapped pair), or empty
+					prev := r.PickS("secret-cccc", "secret-bbbb", "secret-aaaa", "")
+					if prev == secret {
+						prev = "secret-cccc"
+					}
 					opts = append(opts, "o=jwtt="+secret+","+prev)
-					secrets = append(secrets, prev)
+					if prev != "" {
+						secrets = append(secrets, prev)
+					}
 				} else {
 					opts = append(opts, "o=jwt="+secret)
 				}
@@ -757,6 +769,20 @@ func TestVerifC09Server(t *testing.T) {
 					opts = append(opts, WithRouter(router.NewRouter()))
 					return "ok"
 				}
+				if v, ok := c09SrvArg(op, "chain="); ok {
+					var ms []chain.Middleware
+					for i := 1; i <= verifh.Atoi(v); i++ {
+						i := i
+						ms = append(ms, func(next http.Handler) http.Handler {
+							return http.HandlerFunc(func(w http.ResponseWriter, r *http.Request) {
+								trail = append(trail, fmt.Sprintf("c%d", i))
+								next.ServeHTTP(w, r)
+							})
+						})
+					}
+					opts = append(opts, WithChain(chain.New(ms...)))
+					return "ok"
+				}
 				return "bad-op"
 			case "use":
 				build()
@@ -914,6 +940,11 @@ func TestVerifC09Server(t *testing.T) {
 						}
 						if rec.Code != 200 {
 							o += fmt.Sprintf(" status=%d", rec.Code)
+						}
+					case len(hits) == 0 && rec.Code == http.StatusUnauthorized:
+						o = "401"
+						if len(trail) > 0 {
+							o += " mw=" + strings.Join(trail, ".") // the WithChain middlewares sit in front of Authorize
 						}
 					case len(trail) > 0:
 						o = "middleware-without-handler=" + strings.Join(trail, ".")
